@@ -18,7 +18,7 @@
    SERIALIZABLE transactions (> 700 000 idle states per tier-thorough run); the seven scenarios of the repaired
    findings complete on the real controllers (harness/cmd/c09) and as regression Examples in Proofs/P2_QueueWitness.v
    (regression_dead_prev, _apply_failed, _initfail_successor, _serializable_gate, _serializable_three, _sync_wakeup,
-   _sync_serializable, _serializable_two_followers, _two_changes_offline, _partial_apply_failure: they end idle, at a fixed point, every target
+   _sync_serializable, _serializable_two_followers, _sync_serializable_rollback, _two_changes_offline, _partial_apply_failure: they end idle, at a fixed point, every target
    connected, every transaction final).  The property is NOT proved in full:
      C09_busy_wait_refuted        "the controllers have no pending work" need not be reached while a device is away: behind
                                   a SERIALIZABLE transaction that waits for its device, a COMMITTED proposal whose apply
